@@ -89,3 +89,26 @@ Lemma base_examples :
   String.eqb (path_base "charts/evil") "charts/evil" = false /\ String.eqb (path_base "good") "good" = true /\
   String.eqb (path_base "../x") "../x" = false /\ String.eqb (path_base "a/") "a/" = false.
 Proof. repeat split; vm_compute; reflexivity. Qed.
+
+(* ---- directory / archive agreement: a concrete tree with one ignored file ---- *)
+From Helm Require Import Chart.AgreeProofs.
+
+Definition ignK (n : string) (_ : bool) : bool := String.eqb n "README.md".
+Definition walkK : list file :=
+  [mkFile ".helmignore" "README.md"; mkFile "Chart.yaml" "name: k4"; mkFile "README.md" "ignored";
+   mkFile "templates/a.yaml" (utf8bom ++ "a: 1"); mkFile "values.schema.json" "{}"].
+
+Lemma agree_example :
+  wf_cname "k4" = true /\ Forall (fun f => wf_fname (f_name f) = true) walkK /\
+  fits 1000 100 (map (fun f => tar_entry ("k4" ++ "/" ++ f_name f) (f_data f)) (kept ignK walkK)) /\
+  kept ignK walkK <> [] /\ schema_ok (trimmed (kept ignK walkK)) /\
+  exists c, load_dir_walk mergeK lock_decK parseK untarK sanK semverK restK 1000 100 ignK 1 walkK = inr c /\
+            c_templates c = [mkFile "templates/a.yaml" "a: 1"] /\ c_files c = [mkFile ".helmignore" "README.md"].
+Proof.
+  split; [reflexivity|]. split; [repeat constructor|]. split.
+  { split; [repeat constructor; vm_compute; discriminate|vm_compute; reflexivity]. }
+  split; [vm_compute; discriminate|]. split.
+  { intros f Hf He p Hn. vm_compute in Hf.
+    repeat (destruct Hf as [<-|Hf]; [simpl in He; try discriminate|]); try contradiction. }
+  eexists. split; [vm_compute; reflexivity|]. split; reflexivity.
+Qed.
